@@ -9,7 +9,8 @@ from fractions import Fraction
 
 import z3
 
-Z3_TIMEOUT_MS = int(os.environ.get("PYVC_Z3_TIMEOUT_MS", "10000"))
+Z3_TIMEOUT_MS = int(os.environ.get("PYVC_Z3_TIMEOUT_MS", "120000"))   # safety net only
+Z3_RLIMIT = int(os.environ.get("PYVC_Z3_RLIMIT", "30000000"))          # the deciding budget (deterministic)
 CVC5_TIMEOUT_S = int(os.environ.get("PYVC_CVC5_TIMEOUT_S", "15"))
 CVC5 = "/usr/bin/cvc5"
 
@@ -19,6 +20,7 @@ def discharge(pc, claim, want_cvc5_recheck=False):
     t0 = time.time()
     s = z3.Solver()
     s.set("timeout", Z3_TIMEOUT_MS)
+    s.set("rlimit", Z3_RLIMIT)
     for f in pc:
         s.add(f)
     s.add(z3.Not(claim) if not isinstance(claim, bool) else z3.BoolVal(not claim))
@@ -40,6 +42,7 @@ def discharge(pc, claim, want_cvc5_recheck=False):
         # second try: different tactic/seed
         s2 = z3.Solver()
         s2.set("timeout", Z3_TIMEOUT_MS)
+        s2.set("rlimit", Z3_RLIMIT)
         s2.set("random_seed", 7)
         for f in pc:
             s2.add(f)
